@@ -768,10 +768,12 @@ func svgFamily() fw.Family {
 
 func families(tier string) []fw.Family {
 	fs := printerFamilies(tier)
-	fs = append(fs, mutationFamily(), svgFamily())
+	fs = append(fs, mutationFamily(), svgFamily(), grammarFamily(tier))
 	fs = append(fs, stringFamilies(tier)...)
 	return fs
 }
+
+var movetoCloseRe = regexp.MustCompile(`[Mm]-?[0-9.]+ -?[0-9.]+[Zz]`)
 
 // Prop is the C11 check.
 func Prop() *fw.Property {
@@ -793,6 +795,10 @@ func Prop() *fw.Property {
 		},
 		Families: families,
 		KnownPredicates: map[string]func(v *fw.Violation) bool{
+			// K19 (C10): a closepath directly after a moveto deletes the moveto
+			"moveto-directly-followed-by-closepath": func(v *fw.Violation) bool {
+				return v.Class == "grammar:geometry" && movetoCloseRe.MatchString(v.Case)
+			},
 			// one matcher per root cause seen on the pinned tree; where a class is shared by
 			// several possible causes the matcher also looks for the cause's signature
 			"dec-carry-drops-digit": func(v *fw.Violation) bool {
